@@ -53,6 +53,8 @@ def san_closure(d, s):
             return "|s: String| s.chars().rev().collect::<String>()"
         if fn == "bang":
             return "|mut s: String| { s.push('!'); s }"
+        if fn == "tag_a":
+            return "|mut s: String| { s.push('A'); s }"
         if fn == "take2":
             return "|s: String| s.chars().take(2).collect::<String>()"
     if fam == "any" and d.get("ty") == "Point":
